@@ -1,6 +1,408 @@
+//! C04 — solve_ivp always terminates and never panics on valid input.
+//! Every hostile call runs in its own child process (`ivpmon child ...`) under a logical budget of
+//! right-hand-side evaluations with stall detection, a CPU-time limit and a wall-clock watchdog.
+
 use crate::ctx::{Ctx, Meta};
+use crate::probe::*;
+use crate::problems::*;
 use crate::report::Report;
-pub fn run(ctx: &Ctx) -> (Report, Meta) {
-    (Report::new(&ctx.prop), Meta::new("not built yet"))
+use crate::rng::Rng;
+use crate::util::par_for;
+use ivp::prelude::*;
+use serde_json::{json, Value};
+use std::io::Read;
+use std::process::{Command, Stdio};
+use std::time::{Duration, Instant};
+
+const BUDGET: u64 = 20_000_000;
+const STALL_WINDOW: u64 = 1_000_000;
+
+const KINDS: [&str; 13] = [
+    "blowup_y2", "blowup_1_plus_y2", "sqrt_domain_exit", "nan_after_time", "inf_in_region", "bounded_discontinuity", "stiff_decay_explicit", "zero_rhs", "nan_at_start", "blowup_exp", "blowup_pole_opposite_side", "sqrt_boundary_at_xend", "step_below_ulp_of_x0",
+];
+
+struct Hostile {
+    kind: usize,
+    scn: Scn,
+    prob: Box<dyn Problem>,
+    /// for blow-up kinds: time of the singularity (a Success beyond it is wrong for error-controlled methods)
+    singular_at: Option<f64>,
 }
-pub fn child_main(_args: &[String]) {}
+
+fn fnp<F: Fn(f64, &[f64], &mut [f64]) + Send + Sync + 'static>(n: usize, name: &str, f: F) -> Box<dyn Problem> {
+    Box::new(FnProblem { n, name: name.to_string(), fun: f })
+}
+
+fn gen(seed: u64, idx: usize) -> Hostile {
+    let mut rng = Rng::derive(seed, 4, idx as u64);
+    let kind = idx % KINDS.len();
+    let method = METHODS[(idx / KINDS.len()) % 6];
+    let mut x0 = 0.0;
+    let mut xend;
+    let mut y0 = vec![1.0];
+    let mut singular_at = None;
+    let prob: Box<dyn Problem> = match kind {
+        0 => {
+            let s = rng.range(0.5, 2.0);
+            y0 = vec![1.0 / s];
+            xend = s * rng.range(1.2, 5.0);
+            singular_at = Some(s);
+            fnp(1, "y' = y^2", |_t, y, d| d[0] = y[0] * y[0])
+        }
+        1 => {
+            let u0: f64 = rng.range(-0.5, 0.8);
+            y0 = vec![u0];
+            let s = std::f64::consts::FRAC_PI_2 - u0.atan();
+            xend = s * rng.range(1.1, 4.0);
+            singular_at = Some(s);
+            fnp(1, "y' = 1 + y^2", |_t, y, d| d[0] = 1.0 + y[0] * y[0])
+        }
+        2 => {
+            xend = rng.range(2.5, 6.0);
+            fnp(1, "y' = -sqrt(y)", |_t, y, d| d[0] = -(y[0].sqrt()))
+        }
+        3 => {
+            let c = rng.range(0.2, 0.9);
+            xend = rng.range(1.0, 3.0);
+            y0 = vec![1.0, 0.5];
+            fnp(2, &format!("y' = -y, NaN for t > {}", c), move |t, y, d| {
+                if t > c {
+                    d[0] = f64::NAN;
+                    d[1] = f64::NAN;
+                } else {
+                    d[0] = -y[0];
+                    d[1] = y[0] - y[1];
+                }
+            })
+        }
+        4 => {
+            xend = rng.range(2.0, 5.0);
+            y0 = vec![0.0];
+            let c = rng.range(0.5, 1.5);
+            fnp(1, &format!("y' = 1, +inf for y > {}", c), move |_t, y, d| d[0] = if y[0] > c { f64::INFINITY } else { 1.0 })
+        }
+        5 => {
+            xend = rng.range(2.0, 10.0);
+            let w = rng.range(5.0, 60.0);
+            fnp(1, "y' = -y + sign(sin(w t))", move |t, y, d| d[0] = -y[0] + if (w * t).sin() >= 0.0 { 1.0 } else { -1.0 })
+        }
+        6 => {
+            let lam = *rng.pick(&[1e4, 1e5, 1e6]);
+            xend = rng.range(0.5, 2.0);
+            fnp(1, &format!("y' = -{}(y - cos t)", lam), move |t, y, d| d[0] = -lam * (y[0] - t.cos()))
+        }
+        7 => {
+            xend = rng.logu(1.0, 1e6);
+            y0 = vec![rng.range(-1.0, 1.0), 2.0];
+            fnp(2, "y' = 0", |_t, _y, d| {
+                d[0] = 0.0;
+                d[1] = 0.0;
+            })
+        }
+        8 => {
+            xend = rng.range(1.0, 3.0);
+            fnp(1, "y' = y sin(t)/t (NaN at t = 0)", |t, y, d| d[0] = y[0] * t.sin() / t)
+        }
+        9 => {
+            xend = rng.range(2.0, 5.0);
+            y0 = vec![0.0];
+            singular_at = Some(1.0);
+            fnp(1, "y' = exp(y)", |_t, y, d| d[0] = y[0].exp())
+        }
+        10 => {
+            // pole on the side of the origin opposite to the direction of integration
+            y0 = vec![1.0];
+            if rng.bool() {
+                x0 = -2.0;
+                xend = rng.range(-0.5, 1.0);
+                singular_at = Some(-1.0);
+                fnp(1, "y' = y^2 from x0 = -2 (pole at -1)", |_t, y, d| d[0] = y[0] * y[0])
+            } else {
+                x0 = 2.0;
+                xend = rng.range(-1.0, 0.5);
+                singular_at = Some(1.0);
+                fnp(1, "y' = -y^2 backward from x0 = 2 (pole at +1)", |_t, y, d| d[0] = -y[0] * y[0])
+            }
+        }
+        11 => {
+            // solution reaches the domain boundary exactly at xend
+            xend = 2.0;
+            fnp(1, "y' = -sqrt(y), boundary reached at xend", |_t, y, d| d[0] = -(y[0].sqrt()))
+        }
+        _ => {
+            // interval of a few ulps of x0: steps cannot be resolved
+            x0 = rng.sign() * *rng.pick(&[1e6, 1e9, 1e12]);
+            xend = x0 + rng.sign() * x0.abs() * f64::EPSILON * rng.range(3.0, 400.0);
+            fnp(1, "y' = -y on an interval of a few ulps", |_t, y, d| d[0] = -y[0])
+        }
+    };
+    // direction: one case in three integrates the time-reflected problem backward
+    let backward = (idx / 78) % 3 == 2 && kind != 10 && kind != 12;
+    let prob: Box<dyn Problem> = if backward {
+        x0 = -x0;
+        xend = -xend;
+        singular_at = singular_at.map(|s| -s);
+        struct Refl(Box<dyn Problem>);
+        impl Problem for Refl {
+            fn dim(&self) -> usize {
+                self.0.dim()
+            }
+            fn f(&self, t: f64, y: &[f64], d: &mut [f64]) {
+                self.0.f(-t, y, d);
+                for v in d.iter_mut() {
+                    *v = -*v;
+                }
+            }
+            fn describe(&self) -> Value {
+                json!({"reflected": self.0.describe()})
+            }
+        }
+        Box::new(Refl(prob))
+    } else {
+        prob
+    };
+    let mut scn = Scn::new(method, x0, xend, y0);
+    // loose (default-like) tolerances half of the time: stiffness detection does not mask a missing guard there
+    let rt = if rng.bool() { rng.logu(1e-4, 1e-3) } else { rng.logu(1e-8, 1e-3) };
+    scn.rtol = Tol::S(rt);
+    scn.atol = Tol::S(rt * rng.logu(1e-3, 1.0));
+    scn.budget = BUDGET;
+    if method == Method::RK4 && kind != 12 {
+        scn.first_step = Some((xend - x0) / rng.range(50.0, 2000.0));
+    }
+    match (idx / 6) % 5 {
+        1 => scn.max_steps = Some(*rng.pick(&[10usize, 100, 1000, 10_000])),
+        2 => {
+            let m = 3 + rng.below(20);
+            scn.t_eval = Some((0..=m).map(|i| x0 + (xend - x0) * i as f64 / m as f64).collect());
+            if let Some(t) = scn.t_eval.as_mut() {
+                *t.last_mut().unwrap() = xend;
+            }
+        }
+        3 => scn.dense = true,
+        4 => {
+            scn.events = vec![EvSpec { kind: EvKind::Comp { k: 0, c: rng.range(0.3, 3.0) }, dir: 0, terminal: None }];
+            scn.dense = rng.bool();
+        }
+        _ => {}
+    }
+    if kind == 11 {
+        // the reported value at t = xend must be finite under Success
+        scn.t_eval = Some(vec![x0, 0.5 * (x0 + xend), xend]);
+    }
+    Hostile { kind, scn, prob, singular_at }
+}
+
+/// Child process entry: run one case, print one JSON line, exit 0; exit 77 on a stalled budget
+/// exhaustion, 79 on budget exhaustion with continuing progress, 78 on a panic.
+pub fn child_main(args: &[String]) {
+    let seed: u64 = args[0].parse().expect("seed");
+    let idx: usize = args[1].parse().expect("idx");
+    let h = gen(seed, idx);
+    let mut probe = Probe::new(h.prob.as_ref(), h.scn.x0);
+    probe.events = h.scn.events.clone();
+    probe.budget = u64::MAX;
+    // budget handled here so that the stall information is available
+    struct Guard<'a> {
+        p: Probe<'a>,
+    }
+    impl<'a> IVP for Guard<'a> {
+        fn ode(&self, x: f64, y: &[f64], d: &mut [f64]) {
+            self.p.ode(x, y, d);
+            let l = self.p.log.borrow();
+            let total = l.n_ode + l.n_ode_jac;
+            if total > BUDGET {
+                let stalled = total - l.far_at >= STALL_WINDOW;
+                println!("{}", json!({"outcome": "budget", "calls": total, "far": l.far, "far_at": l.far_at, "stalled": stalled}));
+                std::process::exit(if stalled { 77 } else { 79 });
+            }
+        }
+        fn n_events(&self) -> usize {
+            self.p.n_events()
+        }
+        fn events(&self, x: f64, y: &[f64], o: &mut [f64]) {
+            self.p.events(x, y, o)
+        }
+        fn event_config(&self, i: usize) -> EventConfig {
+            self.p.event_config(i)
+        }
+        fn jac(&self, x: f64, y: &[f64], j: &mut Matrix) {
+            // default finite differences through this guard so that the budget also covers them
+            struct In<'b, 'a>(&'b Guard<'a>);
+            impl<'b, 'a> IVP for In<'b, 'a> {
+                fn ode(&self, x: f64, y: &[f64], d: &mut [f64]) {
+                    self.0.ode(x, y, d)
+                }
+            }
+            IVP::jac(&In(self), x, y, j)
+        }
+    }
+    let g = Guard { p: probe };
+    let r = std::panic::catch_unwind(std::panic::AssertUnwindSafe(|| solve_ivp(&g, h.scn.x0, h.scn.xend, &h.scn.y0, h.scn.options())));
+    let l = g.p.log.borrow();
+    match r {
+        Err(p) => {
+            println!("{}", json!({"outcome": "panic", "message": panic_message(&p)}));
+            std::process::exit(78);
+        }
+        Ok(Err(e)) => println!("{}", json!({"outcome": "err", "error": format!("{:?}", e), "calls": l.n_ode + l.n_ode_jac})),
+        Ok(Ok(sol)) => {
+            let dirn = (h.scn.xend - h.scn.x0).signum();
+            let finite = sol.y.iter().all(|v| v.iter().all(|x| x.is_finite())) && sol.t.iter().all(|t| t.is_finite());
+            let ordered = sol.t.windows(2).all(|w| (w[1] - w[0]) * dirn > 0.0 || (sol.status == Status::UserInterrupt && w[1] == w[0]));
+            let dense_end_finite = match (&sol.continuous_sol, sol.t.last()) {
+                (Some(_), Some(&tl)) => sol.sol(tl).map(|v| v.iter().all(|x| x.is_finite())).unwrap_or(true),
+                _ => true,
+            };
+            println!(
+                "{}",
+                json!({"outcome": "returned", "status": format!("{:?}", sol.status), "n": sol.t.len(), "len_y": sol.y.len(), "finite": finite, "ordered": ordered,
+                       "first_t": sol.t.first(), "last_t": sol.t.last(), "calls": l.n_ode + l.n_ode_jac, "nonfinite_rhs_calls": l.nonfinite_rhs, "nfev": sol.nfev, "nstep": sol.nstep,
+                       "dense_end_finite": dense_end_finite, "events": sol.t_events.iter().map(|v| v.len()).collect::<Vec<_>>()})
+            );
+        }
+    }
+    std::process::exit(0);
+}
+
+enum ChildResult {
+    Exit(i32, String),
+    WallTimeout,
+    SpawnError(String),
+}
+
+fn run_child(seed: u64, idx: usize) -> ChildResult {
+    let exe = match std::env::current_exe() {
+        Ok(e) => e,
+        Err(e) => return ChildResult::SpawnError(e.to_string()),
+    };
+    let cmd = format!("ulimit -t 60; exec \"{}\" child {} {}", exe.display(), seed, idx);
+    let mut child = match Command::new("sh").arg("-c").arg(&cmd).stdout(Stdio::piped()).stderr(Stdio::null()).spawn() {
+        Ok(c) => c,
+        Err(e) => return ChildResult::SpawnError(e.to_string()),
+    };
+    let t0 = Instant::now();
+    loop {
+        match child.try_wait() {
+            Ok(Some(st)) => {
+                let mut out = String::new();
+                if let Some(mut so) = child.stdout.take() {
+                    let _ = so.read_to_string(&mut out);
+                }
+                use std::os::unix::process::ExitStatusExt;
+                let code = st.code().unwrap_or_else(|| 128 + st.signal().unwrap_or(0));
+                return ChildResult::Exit(code, out);
+            }
+            Ok(None) => {
+                if t0.elapsed() > Duration::from_secs(180) {
+                    let _ = child.kill();
+                    let _ = child.wait();
+                    return ChildResult::WallTimeout;
+                }
+                std::thread::sleep(Duration::from_millis(5));
+            }
+            Err(e) => return ChildResult::SpawnError(e.to_string()),
+        }
+    }
+}
+
+pub fn run(ctx: &Ctx) -> (Report, Meta) {
+    let meta = Meta::new(
+        "hostile right-hand sides, one solve_ivp call per child process: finite-time blow-up (y^2, 1+y^2, exp(y), singularity at several distances and on either side of the origin), sqrt leaving its domain (also with the boundary reached exactly at xend), NaN / +inf returned after a time or in a region of state space or at the initial point, bounded discontinuous forcing, stiff decay (rates 1e4..1e6) with explicit methods, zero right-hand side over spans up to 1e6; x 6 methods x {unlimited step budget, max_steps 10..1e4} x {plain, t_eval, dense_output, events} x {forward, time-reflected backward}; a child that exhausts 2e7 right-hand-side evaluations without progress in max|t - x0| over the last 1e6 of them (or 60 s of CPU time) is a bounded-work violation; non-trivial = child whose right-hand side actually returned a non-finite value or whose run ended with a non-success status (distinct by case index)",
+    )
+    .assume("termination is decided as bounded work: logical budget of 2e7 evaluations (>= 1000 x what a terminating solver needs on these problems) plus stall detection; budget exhaustion with continuing progress and the 180 s wall-clock watchdog are inconclusive, never violations")
+    .assume("fixed-step RK4 is not error controlled: non-finite values and integration past a singularity are not violations for it")
+    .thresholds(json!({"evaluation_budget": BUDGET, "stall_window": STALL_WINDOW, "cpu_seconds": 60, "wall_seconds_inconclusive": 180}))
+    .floor("children_run", 300)
+    .floor("children_with_nonsuccess_status", 100)
+    .floor("children_rhs_went_nonfinite", 60);
+    let n = ctx.size(936, 9_360);
+    let rep = par_for(n, "C04", |i, rep| {
+        let case_id = format!("child/{}", i);
+        if !ctx.want(&case_id) {
+            return;
+        }
+        let h = gen(ctx.seed, i);
+        let m = mname(h.scn.method);
+        let kn = KINDS[h.kind];
+        let case = {
+            let mut c = h.scn.describe(h.prob.as_ref());
+            c["hostile_kind"] = json!(kn);
+            c["child_args"] = json!(format!("child {} {}", ctx.seed, i));
+            c
+        };
+        let sig = |clause: &str| format!("C04/{}/{}/{}", clause, m, kn);
+        rep.eval();
+        match run_child(ctx.seed, i) {
+            ChildResult::SpawnError(e) => rep.harness_error(&format!("cannot spawn child: {}", e)),
+            ChildResult::WallTimeout => rep.inconclusive("wall_clock_watchdog"),
+            ChildResult::Exit(code, out) => {
+                rep.count("children_run", 1);
+                let line = out.lines().last().unwrap_or("");
+                let v: Value = serde_json::from_str(line).unwrap_or(json!({}));
+                match code {
+                    0 => {
+                        if v["outcome"] == "err" {
+                            rep.count("children_returned_err", 1);
+                            rep.nontrivial(i as u64);
+                            return;
+                        }
+                        if v["outcome"] != "returned" {
+                            rep.harness_error(&format!("child {} printed no verdict line: {:?}", i, out));
+                            return;
+                        }
+                        let status = v["status"].as_str().unwrap_or("").to_string();
+                        rep.count(&format!("status_{}", status), 1);
+                        let nonfinite_rhs = v["nonfinite_rhs_calls"].as_u64().unwrap_or(0);
+                        if nonfinite_rhs > 0 {
+                            rep.count("children_rhs_went_nonfinite", 1);
+                        }
+                        if status != "Success" || nonfinite_rhs > 0 {
+                            rep.nontrivial(i as u64);
+                        }
+                        if status != "Success" {
+                            rep.count("children_with_nonsuccess_status", 1);
+                        }
+                        let mut c2 = case.clone();
+                        c2["child_report"] = v.clone();
+                        let error_controlled = h.scn.method != Method::RK4;
+                        if v["n"] != v["len_y"] {
+                            rep.violate(&sig("prefix_valid"), "len(t) != len(y)".into(), &case_id, c2.clone());
+                        }
+                        if v["ordered"] == false {
+                            rep.violate(&sig("prefix_ordered"), "returned samples are not ordered in the direction of integration".into(), &case_id, c2.clone());
+                        }
+                        if status == "Success" && error_controlled && (v["finite"] == false || v["dense_end_finite"] == false) {
+                            rep.violate(&sig("success_nonfinite"), "status Success with non-finite values reported by an error-controlled method".into(), &case_id, c2.clone());
+                        }
+                        if status == "Success" && error_controlled {
+                            if let Some(s) = h.singular_at {
+                                let dirn = h.scn.dir();
+                                if (h.scn.xend - s) * dirn > 0.0 {
+                                    rep.violate(&sig("success_past_singularity"), format!("status Success although the exact solution blows up at t = {:e} inside the interval", s), &case_id, c2.clone());
+                                }
+                            }
+                        }
+                        if status != "Success" && h.scn.t_eval.is_none() {
+                            // the samples accepted so far must be there
+                            let n = v["n"].as_u64().unwrap_or(0);
+                            let first_ok = v["first_t"].as_f64().map(|t| t.to_bits() == h.scn.x0.to_bits()).unwrap_or(false);
+                            if n == 0 || !first_ok {
+                                rep.violate(&sig("prefix_returned"), format!("status {} but the samples accepted so far are missing (n = {})", status, n), &case_id, c2.clone());
+                            }
+                        }
+                        if i % 53 == 0 {
+                            rep.sample(json!({"case": case, "child_report": v}));
+                        }
+                    }
+                    77 => rep.violate(&sig("bounded_work"), format!("evaluation budget of {} exhausted without progress during the last {} evaluations: {}", BUDGET, STALL_WINDOW, line), &case_id, case),
+                    79 => rep.inconclusive("budget_exhausted_while_still_progressing_(crawl)"),
+                    78 => rep.violate(&sig("no_panic"), format!("solve_ivp panicked: {}", v["message"]), &case_id, case),
+                    c if c == 128 + 24 || c == 137 || c == 152 => rep.violate(&sig("bounded_work"), format!("CPU-time limit of 60 s hit (exit code {}): the call does not return", c), &case_id, case),
+                    c => rep.violate(&sig("no_abort"), format!("child died with exit code {} (abort / signal): {}", c, out), &case_id, case),
+                }
+            }
+        }
+    });
+    (rep, meta)
+}
